@@ -59,6 +59,30 @@ theorem row_tuple_sound (forms : List DbForm) (row : Nat × Nat × Nat × List (
   simp only [Bool.and_eq_true, bne_iff_ne, ne_eq, beq_iff_eq] at hp
   exact ⟨f, hfm, hp.1, hp.2, by rw [e]; exact hall⟩
 
+/-- `validate_sound` (signature layer): when the signature loop of the validator model accepts the translated operands
+    `sigs` in mode `mode`, there are a row of the instruction and a database form of the instruction - allowed in that
+    mode, with the row's operand count - in which the operands sit (`Embeds`): every spelled operand shares an operand
+    kind with the form at its position, unspelled positions are implicit operands of the row. `forms` are the database
+    forms `rowSound` was kernel-checked against (`sig_rows_sound`). -/
+theorem validate_sound (forms : List DbForm) (rows : List (Nat × Nat × Nat × List (Nat × Nat)))
+    (hrows : ∀ row ∈ rows, rowSound forms row = true) (mode : Nat) (hmode : mode = 1 ∨ mode = 2)
+    (sigs : List (Nat × Nat)) (g' : Bool) (h : matchSignatures mode sigs rows false = (true, g')) :
+    ∃ row ∈ rows, ∃ f ∈ forms, f.1 &&& mode ≠ 0 ∧ f.2.length = row.1 ∧ Embeds sigs row.2.2.2 f.2 := by
+  obtain ⟨row, hrow, hm, hcase⟩ := matchSignatures_true mode sigs rows false g' h
+  have hs := hrows row hrow
+  have hs' := hs
+  unfold rowSound at hs'
+  simp only [Bool.and_eq_true, beq_iff_eq] at hs'
+  obtain ⟨⟨hlen, hnz⟩, _⟩ := hs'
+  have hemb : ∃ choice, All2 (fun b r => b ∈ bitsOf r) choice (row.2.2.2.map fun r => r.1 &&& fOpMask) ∧
+      ∀ f : List Nat, All2 (fun k b => k &&& b ≠ 0) f choice → Embeds sigs row.2.2.2 f := by
+    rcases hcase with ⟨h1, h2⟩ | ⟨_, _, h3⟩
+    · exact embeds_of_explicit sigs row.2.2.2 false hnz (by omega) h2
+    · exact embeds_of_skipping sigs row.2.2.2 false hnz h3
+  obtain ⟨choice, hc1, hc2⟩ := hemb
+  obtain ⟨f, hf, hfm, hfl, hall⟩ := row_tuple_sound forms row hs mode hmode hm choice hc1
+  exact ⟨row, hrow, f, hf, hfm, hfl, hc2 f.2 hall⟩
+
 -- non-vacuity: `add` (id 9) has rows, its first row admits r8|m8 x r8 and the tuple (GpbLo, GpbLo) is a database form
 example : ∃ e ∈ parts.flatMap id, e.1 = 9 ∧ e.2 ≠ [] := by decide +kernel
 example : (resolve AsmjitVerif.Gen.X86Sig.tables 9).any (fun R => R.rows.length > 4) = true := by decide +kernel
